@@ -22,7 +22,11 @@ impl KNumber {
     pub fn abs(self) -> Self {
         match self {
             Self::F64(n) => Self::F64(n.abs()),
-            Self::I64(n) => Self::I64(n.abs()),
+            // The absolute value of i64::MIN can't be represented as an i64
+            Self::I64(n) => match n.checked_abs() {
+                Some(result) => Self::I64(result),
+                None => Self::F64((n as f64).abs()),
+            },
         }
     }
 
